@@ -15,7 +15,7 @@ from .. import world as W
 
 PROP = "C12"
 LEVEL = "fault_enumeration"
-CASES = {"quick": 420, "thorough": 6000}
+CASES = {"quick": 340, "thorough": 6000}
 WALL_CAP = {"quick": 1500, "thorough": 5 * 3600}
 FAULTS_PER_CASE = 5
 ENUM_WORLDS = {"quick": 0, "thorough": 6}
@@ -317,12 +317,58 @@ def _retarget(old, new, f):
 # ------------------------------------------------------------------------------ thorough: full enumeration
 
 
+def _kind_sweep_cases(master, facts):
+    """Every fault *kind* at least once per world on three fixed-shape worlds (us with a method schedule, jp, ie), whatever the
+    sampling of the main phase happens to pick: all config / storage / command-line faults and one position of every row-level and
+    table-level kind."""
+    cases = []
+    shapes = [("us", True), ("jp", False), ("ie", False), ("generic", True)]
+    for k, (country, schedule) in enumerate(shapes):
+        seed = gen.case_seed(master, PROP + "-sweep", k)
+        rng = random.Random(seed)
+        swarm = {"optional_cols": True, "permute": k % 2 == 0, "shapes": False, "n_assets": 2, "n_rows": 6, "mixed_tz": True, "need_uid": True, "schedule": True, "window": False}
+        world = None
+        for _ in range(200):
+            world = W.gen_world(rng, swarm, country)
+            kinds = {t["type"] for s in world["sheets"] for t in s["tables"] if t["rows"]}
+            fee_intra = any(W.D(r["crypto_sent"]) > W.D(r["crypto_received"]) for _, t, r in W.all_rows(world) if t == "INTRA")
+            if W.validate(world)[0] and kinds == {"IN", "OUT", "INTRA"} and fee_intra:
+                break
+        opts = gen.gen_options(rng, world, country, facts[country], swarm)
+        opts.update({"neg": False, "asset": None, "outdir": "out", "path_style": "rel", "files_in": "", "prefix": "", "method": None, "lang": None, "from": None, "to": None})
+        if schedule:
+            years = W.local_years(world)
+            world["methods"] = [[min(years) - 2, facts[country]["default_method"]], [min(years) + 1, facts[country]["methods"][-1]]]
+        else:
+            world["methods"] = None
+        seen = set()
+        chosen = []
+        for f in faults.enumerate_faults(world, opts, facts):
+            key = (f["class"], f["kind"], f.get("table"), f.get("field"), f.get("section"), f.get("value") if f["class"] in ("cmdline", "config") else None, f.get("pair"), f.get("frac"))
+            if key in seen:
+                continue
+            seen.add(key)
+            chosen.append(f)
+        base = {"property": PROP, "seed": seed, "swarm": swarm, "world": world, "opts": opts, "host": dict(gen.BASE_HOST), "prestate": ["stale_report"] if k % 2 else [],
+                "applicable_faults": len(chosen)}
+        chunk = 10
+        for j in range(0, len(chosen), chunk):
+            cases.append(dict(base, index=3 * 10**9 + k * 10**6 + j, faults=chosen[j:j + chunk], baseline=(j == 0)))
+    return cases
+
+
 def extra_phase(tier, master, facts, src, log):
+    sweep = _kind_sweep_cases(master, facts)
+    log("C12 kind sweep: %d fault kinds x positions over 4 fixed-shape worlds" % sum(len(c["faults"]) for c in sweep))
+    sweep_outs = engine.run_cases(PROP, sweep, src=src)
+    for o in sweep_outs:
+        if "stats" in o:
+            o["stats"]["kind_sweep_evaluations"] = o["stats"].get("evaluations", 0)
     n_worlds = int(os.environ.get("RP2SIM_ENUM_WORLDS", "-1"))
     if n_worlds < 0:
         n_worlds = ENUM_WORLDS[tier]
     if not n_worlds:
-        return [], {}
+        return sweep_outs, {}
     cases = []
     enumerated = []
     for k in range(n_worlds):
@@ -346,6 +392,6 @@ def extra_phase(tier, master, facts, src, log):
         for j in range(0, len(allf), chunk):
             cases.append(dict(base, index=10**9 + k * 10**6 + j, faults=allf[j:j + chunk], baseline=(j == 0)))
     log("C12 full enumeration: %d worlds, %d (class, position) pairs" % (n_worlds, sum(e["fault_positions"] for e in enumerated)))
-    outs = engine.run_cases(PROP, cases, src=src)
+    outs = sweep_outs + engine.run_cases(PROP, cases, src=src)
     return outs, {"exhaustive": False, "coverage": {"worlds_enumerated_completely": enumerated,
                                                      "exhaustive_note": "every applicable (class, position) pair of the listed worlds was executed; the sampled part of the run is not exhaustive, hence exhaustive=false for the run as a whole"}}
